@@ -21,6 +21,7 @@ type VerifStateSizes struct {
 	VisitedEntries int // len(BacktrackerState.Visited)
 	VisitedCap     int // cap(BacktrackerState.Visited)
 	VisitedLimit   int // BoundedBacktracker.MaxVisitedSize(), 0 if there is no backtracker
+	Generation     int // BacktrackerState.Generation (16-bit epoch of the visited table), -1 if there is no backtracker state
 }
 
 // VerifStateSizes inspects the parked search state without resetting it.
@@ -42,7 +43,9 @@ func (e *Engine) VerifStateSizes() (sizes VerifStateSizes, ok bool) {
 	add("revDFACache", state.revDFACache)
 	add("stratFwdCache", state.stratFwdCache)
 	add("stratRevCache", state.stratRevCache)
+	sizes.Generation = -1
 	if state.backtracker != nil {
+		sizes.Generation = int(state.backtracker.Generation)
 		sizes.VisitedEntries = len(state.backtracker.Visited)
 		sizes.VisitedCap = cap(state.backtracker.Visited)
 	}
